@@ -41,6 +41,17 @@ def scenarios(ctx):
                 else:
                     steps.append(st)
     out.append({"id": "modes", "cfg": {}, "steps": steps})
+    # protocol switches: every spelling of the Connection header that asks (or does not ask) for the upgrade, a backend that
+    # switches or declines
+    steps = []
+    spellings = [["Upgrade"], ["upgrade"], ["UPGRADE"], ["keep-alive, Upgrade"], ["Upgrade, keep-alive"], [" Upgrade "],
+                 ["keep-alive", "Upgrade"], ["Upgrade", "keep-alive"], ["keep-alive,upgrade"], ["X-End2, Upgrade, keep-alive"],
+                 ["keep-alive"], []]
+    for connhdr in spellings:
+        for backend in ("101", "200"):
+            steps.append({"mode": "upgrade", "connhdr": connhdr, "backend": backend, "proto": rng.choice(["demo", "websocket"]),
+                          "passhost": rng.random() < 0.5})
+    out.append({"id": "upgrade", "cfg": {}, "steps": steps})
     return out
 
 
